@@ -8,6 +8,10 @@ case = dict(A, P, N, wtt_us, stop_us, ends, horizon_us, ack_type, msgs=[dict(at,
             this message (both: see recv_props.decorate_wire / decorate_mw), pre_fail, post_fail, save_fail, psave_fail, onerr_fail, fail_exc (error | cancel | base), fail_after_us, tlabel_us, cleanup_us, payload (byte values of a malformed message))])       (all instants / durations in integer microseconds,
             dur = -1: never ends)
        sc["fmt"]: formatter / serializer of the broker; sc["mws"]: extra recording middlewares
+       sc["late"], sc["shared_default"], m["task"]: tasks registered late / through the shared broker / on another broker
+            (recv_props.decorate_reg); sc["live"]: the real run_receiver_task coroutine runs for the whole scenario over a
+            listen() that fails at scripted points (recv_props.gen_live) - raw log: SESSION s (Receiver.listen called), LISTEN s, TAKE i s,
+            FAULT s exc, no LTS trace
 observation = dict(raw=[[t_us, tag, a, b], ...], lts=[Coq event literals], cut, returned, wire={i: printable bytes})"""
 import asyncio
 import base64
@@ -25,6 +29,7 @@ import taskiq.receiver.receiver as rmod
 from taskiq import TaskiqMiddleware
 from taskiq.abc.broker import AckableMessage, AsyncBroker
 from taskiq.abc.result_backend import AsyncResultBackend
+from taskiq.brokers.shared_broker import async_shared_broker
 from taskiq.acks import AcknowledgeType
 from taskiq.exceptions import NoResultError
 from taskiq.formatters.json_formatter import JSONFormatter
@@ -102,6 +107,64 @@ def run_case(sc, opts):
                     log.add("END")
                     return
                 await asyncio.Event().wait()
+
+        live = sc.get("live")
+        lv = dict(cur=0, sessions=0, unstarted=set(), waiter=None, events=[], stopped=False, built=0,
+                  faults=[dict(f, done=False) for f in (live or {}).get("faults") or []])
+        box["lv"] = lv
+
+        class BL(B):
+            """the broker of a run under run_receiver_task: every call of listen() (one per receiver session) goes on with the
+            messages that were not served yet; a scripted fault makes the call raise"""
+
+            async def listen(self):
+                import cli_glue
+                s = lv["sessions"] - 1          # the session (call of Receiver.listen) this generator serves
+                log.add("LISTEN", s)
+                L = box["msgs"]
+                while True:
+                    k = lv["cur"]
+                    fl = next((x for x in lv["faults"] if not x["done"] and x["k"] <= k), None)
+                    if fl is not None:
+                        if fl.get("at_us") is not None:
+                            d = fl["at_us"] / 1e6 - loop.time()
+                            if d > 0:
+                                await asyncio.sleep(d)
+                        if fl.get("hold"):
+                            # the connection does not drop while a message this worker took has not been started
+                            while lv["unstarted"]:
+                                lv["waiter"] = loop.create_future()
+                                await lv["waiter"]
+                        fl["done"] = True
+                        log.add("FAULT", s, fl["exc"])
+                        raise cli_glue.listen_fault(fl["exc"])
+                    if k >= len(L):
+                        break
+                    m = L[k]
+                    d = m["at"] / 1e6 - loop.time()
+                    if d > 0:
+                        await asyncio.sleep(d)
+                    lv["cur"] = k + 1
+                    lv["unstarted"].add(m["i"])
+                    log.add("TAKE", m["i"], s)
+                    yield m["wire"]
+                if sc.get("ends"):
+                    log.add("END")
+                    return
+                await asyncio.Event().wait()
+
+        if live is not None:
+            plain_add0 = log.add
+
+            def add0(tag, a=None, b=None):
+                plain_add0(tag, a, b)
+                if tag == "cb.start":
+                    lv["unstarted"].discard(a)
+                    w = lv["waiter"]
+                    if not lv["unstarted"] and w is not None and not w.done():
+                        w.set_result(None)
+
+            log.add = add0
 
         def fail(i, what):
             """the injected failure of a hook / of the backend: an ordinary exception unless the scenario says otherwise"""
@@ -378,7 +441,7 @@ def run_case(sc, opts):
                        post_save=("post_save", post_save), on_error=("on_error", on_error))
             return type("Recording%d" % k, (TaskiqMiddleware,), dict(fns[h] for h in hooks))()
 
-        br = B()
+        br = BL() if live is not None else B()
         fmt = sc.get("fmt", "proxy-json")
         if fmt == "json":
             br.with_formatter(JSONFormatter())
@@ -406,33 +469,67 @@ def run_case(sc, opts):
                 raise Boom()
             return i
 
-        @br.task(task_name="ta")
-        async def ta(i: int, dur: int, out: str, extra: Any = None):
-            log.add("body.in", i)
-            try:
-                try:
-                    if dur < 0:
-                        await asyncio.Event().wait()
-                    elif dur > 0:
-                        await asyncio.sleep(dur / 1e6)
-                except asyncio.CancelledError:
-                    # slow cancellation: the body keeps awaiting while it cleans up (closing a connection, ...)
-                    cl = sc["msgs"][i].get("cleanup_us")
-                    if cl:
-                        log.add("body.cleanup", i)
-                        await asyncio.sleep(cl / 1e6)
-                    raise
-                return finish(i, out)
-            finally:
-                log.add("body.out", i)       # outermost finally: the body has REALLY ended
+        def body(style):
+            """a fresh task function (the same two shapes for every task of the scenario)"""
+            if style == "sync":
+                def ts(i: int, dur: int, out: str, extra: Any = None):
+                    log.add("body.in", i)
+                    try:
+                        return finish(i, out)
+                    finally:
+                        log.add("body.out", i)
 
-        @br.task(task_name="ts")
-        def ts(i: int, dur: int, out: str, extra: Any = None):
-            log.add("body.in", i)
-            try:
-                return finish(i, out)
-            finally:
-                log.add("body.out", i)
+                return ts
+
+            async def ta(i: int, dur: int, out: str, extra: Any = None):
+                log.add("body.in", i)
+                try:
+                    try:
+                        if dur < 0:
+                            await asyncio.Event().wait()
+                        elif dur > 0:
+                            await asyncio.sleep(dur / 1e6)
+                    except asyncio.CancelledError:
+                        # slow cancellation: the body keeps awaiting while it cleans up (closing a connection, ...)
+                        cl = sc["msgs"][i].get("cleanup_us")
+                        if cl:
+                            log.add("body.cleanup", i)
+                            await asyncio.sleep(cl / 1e6)
+                        raise
+                    return finish(i, out)
+                finally:
+                    log.add("body.out", i)       # outermost finally: the body has REALLY ended
+
+            return ta
+
+        ta = br.task(task_name="ta")(body("async"))
+        ts = br.task(task_name="ts")(body("sync"))
+        tasks = {"ta": ta, "ts": ts}
+        other = B()                 # another broker object of the process: what is registered on it is unknown to the worker
+
+        def register(t):
+            fn = body(t["style"])
+            if t["where"] == "shared":
+                tasks[t["name"]] = async_shared_broker.task(task_name=t["name"])(fn)
+                box["global_names"].append(t["name"])
+            elif t["where"] == "decorator":
+                tasks[t["name"]] = br.task(task_name=t["name"])(fn)
+            elif t["where"] == "register_task":
+                tasks[t["name"]] = br.register_task(fn, task_name=t["name"])
+            elif t["where"] == "other":
+                other.task(task_name=t["name"])(fn)
+            else:
+                raise AssertionError("scenario: unknown registration place %r" % (t["where"],))
+            log.add("REG", t["name"], t["where"])
+
+        def register_when(when):
+            for t in sc.get("late") or []:
+                if t["when"] == when:
+                    register(t)
+
+        if sc.get("shared_default") == "before":
+            async_shared_broker.default_broker(br)
+        register_when("pre")
 
         async def on_the_wire(i, m, name, w):
             """the bytes of one VALID message, written as the scenario says (recv_props.decorate_wire)"""
@@ -446,7 +543,7 @@ def run_case(sc, opts):
             if "extra" in w:
                 kwargs["extra"] = w["extra"]
             if w["via"] == "kicker":
-                task = {"ta": ta, "ts": ts}.get(name)
+                task = {"ta": ta, "ts": ts}.get(name)       # (a late / shared task: a kicker made for its name)
                 kicker = task.kicker() if task is not None else AsyncKicker(task_name=name, broker=br, labels={})
                 labels = {k: py for k, _, py, _ in user}
                 labels.update({k: GHOST_VALUE[t] for k, t in w["ghost"]})     # typed by the kicker, removed by the middleware
@@ -495,7 +592,7 @@ def run_case(sc, opts):
                 data = bytes(bytearray(m["payload"])) if m.get("payload") is not None else b"\xff not a message %d" % i
                 assert data is not rmod.QUEUE_DONE and bytes(data) not in ids, "scenario: duplicate payload"
             else:
-                name = "unknown_task" if m["kind"] == "unk" else ("ts" if m.get("style") == "sync" else "ta")
+                name = m.get("task") or ("unknown_task" if m["kind"] == "unk" else ("ts" if m.get("style") == "sync" else "ta"))
                 if m.get("wire"):
                     data = await on_the_wire(i, m, name, m["wire"])
                     shown[str(i)] = repr(bytes(data))[:600]
@@ -531,18 +628,70 @@ def run_case(sc, opts):
         box["msgs"] = msgs
         box["shown"] = shown
 
+        def after_construction():
+            if sc.get("shared_default") == "after":
+                async_shared_broker.default_broker(br)
+            register_when("post")
+
         A = sc["A"]
-        if sc.get("cli") is not None or sc.get("api") is not None:
-            # configuration through the real command-line path / through the real run_receiver_task (harness/cli_glue.py)
-            r = Receiver(br, run_startup=False, **box["cli_kw"])
+
+        class LiveReceiver(Receiver):
+            """the receiver class handed to run_receiver_task: everything is Receiver's own; the constructor adds the two
+            settings run_receiver_task has no parameter for and the logging shims, listen() remembers the finish event"""
+
+            def __init__(self, *a, **kw):
+                if sc["N"] is not None:
+                    kw["max_tasks_to_execute"] = sc["N"]
+                if sc.get("wtt_us") is not None:
+                    kw["wait_tasks_timeout"] = sc["wtt_us"] / 1e6
+                given = kw.get("on_exit")
+
+                def on_exit(rcv):
+                    log.add("RETURN")            # the task group of listen() has ended normally
+                    if given is not None:
+                        given(rcv)
+
+                kw["on_exit"] = on_exit
+                super().__init__(*a, **kw)
+                log.add("RECEIVER", lv["built"])
+                lv["built"] += 1
+                shims.wrap_receiver(self, log, ident, A, sc["P"])
+
+            async def listen(self, finish_event):
+                log.add("SESSION", lv["sessions"])
+                lv["sessions"] += 1
+                lv["unstarted"].clear()          # what the previous session had not handed to a callback went down with it
+                if not any(e is finish_event for e in lv["events"]):
+                    lv["events"].append(finish_event)
+                if lv["stopped"] and not finish_event.is_set():
+                    finish_event.set()           # the stop request stands, whatever event object this session was given
+                await super().listen(finish_event)
+
+        if live is not None:
+            r = ev = None
+
+            def request_stop():
+                if not lv["stopped"]:
+                    lv["stopped"] = True
+                    log.add("STOP")
+                    for e in lv["events"]:
+                        e.set()
         else:
-            r = Receiver(br, max_async_tasks=A, max_prefetch=sc["P"], max_tasks_to_execute=sc["N"], run_startup=False,
-                         wait_tasks_timeout=None if sc.get("wtt_us") is None else sc["wtt_us"] / 1e6,
-                         ack_type=AcknowledgeType(sc["ack_type"]) if sc.get("ack_type") else None)
-        shims.wrap_receiver(r, log, ident, A, sc["P"])
-        ev = shims.make_event(log)
+            if sc.get("cli") is not None or sc.get("api") is not None:
+                # configuration through the real command-line path / through the real run_receiver_task (harness/cli_glue.py)
+                r = Receiver(br, run_startup=False, **box["cli_kw"])
+            else:
+                r = Receiver(br, max_async_tasks=A, max_prefetch=sc["P"], max_tasks_to_execute=sc["N"], run_startup=False,
+                             wait_tasks_timeout=None if sc.get("wtt_us") is None else sc["wtt_us"] / 1e6,
+                             ack_type=AcknowledgeType(sc["ack_type"]) if sc.get("ack_type") else None)
+            shims.wrap_receiver(r, log, ident, A, sc["P"])
+            ev = shims.make_event(log)
+
+            def request_stop():
+                ev.is_set() or ev.set()
+
         if sc.get("stop_us") is not None:
-            loop.call_later(sc["stop_us"] / 1e6, ev.set)
+            loop.call_later(sc["stop_us"] / 1e6, request_stop if live is not None else ev.set)
         so = sc.get("stop_on")
         if so:
             # a stop request placed relative to something that happens in the run: `plus_us` after the first raw-log entry
@@ -553,11 +702,43 @@ def run_case(sc, opts):
                 plain_add(tag, a, b)
                 if tag == so["tag"] and a == so["msg"] and not box.get("so_armed") and threading.current_thread() is main_thread:
                     box["so_armed"] = True
-                    loop.call_later(so.get("plus_us", 0) / 1e6, lambda: ev.is_set() or ev.set())
+                    loop.call_later(so.get("plus_us", 0) / 1e6, request_stop)
 
             log.add = add
         hz = sc["horizon_us"] / 1e6
         loop.call_later(hz - 0.001, lambda: log.add("CUTMARK"))
+        if live is not None:
+            from taskiq.api import run_receiver_task
+            akw = dict(live.get("kw") or {})
+            if akw.get("ack_time") is not None:
+                akw["ack_time"] = AcknowledgeType(akw["ack_time"])
+            worker = asyncio.ensure_future(run_receiver_task(br, receiver_cls=LiveReceiver, **akw))
+            # registrations "after the Receiver exists": the worker's first step builds the receiver and starts listening; this
+            # callback is queued behind that step and ahead of the first step of the prefetcher it starts
+            loop.call_soon(after_construction)
+            for t in sc.get("late") or []:
+                if t["when"] == "at":
+                    loop.call_later(t["at_us"] / 1e6, register, t)
+            done, _ = await asyncio.wait({worker}, timeout=hz)
+            if done:
+                how = "cancelled" if worker.cancelled() else type(worker.exception()).__name__ if worker.exception() else "returned"
+                log.add("WORKER.END", None, how)
+                await asyncio.sleep(1.0)
+            else:
+                log.add("CUT")
+            box["n"] = len(log.ev)
+            # A cancellation that reaches run_receiver_task in the very moment its listen() fails is lost (the task group raises
+            # its children's errors instead of CancelledError and run_receiver_task goes on): cancel until it has ended
+            for _ in range(50):
+                if worker.done():
+                    break
+                worker.cancel()
+                await asyncio.wait({worker}, timeout=1)
+            return log
+        after_construction()
+        for t in sc.get("late") or []:
+            if t["when"] == "at":
+                loop.call_later(t["at_us"] / 1e6, register, t)
         try:
             await asyncio.wait_for(r.listen(ev), hz)
             log.add("RETURN")
@@ -584,12 +765,20 @@ def run_case(sc, opts):
         if akw.get("ack_time") is not None:
             akw["ack_time"] = AcknowledgeType(akw["ack_time"])
         box["cli_kw"] = cli_glue.receiver_kwargs_via_api(akw, InMemoryBroker())
+    box["global_names"] = []
     try:
         log = vloop.run(main)
     finally:
         rmod.asyncio = REAL_ASYNCIO
+        # process-wide state of taskiq this case touched (the child process runs many cases)
+        for n in box["global_names"]:
+            AsyncBroker.global_task_registry.pop(n, None)
+        async_shared_broker._default_broker = None
     A = sc["A"]
     raw = log.ev[:box["n"]]
-    lts, cut = shims.to_lts(raw, A is not None and A > 0)
     tags = [e[1] for e in raw]
+    if sc.get("live") is not None:
+        lts, cut = [], "RETURN" not in tags      # several sessions: no LTS trace (direct oracles only)
+    else:
+        lts, cut = shims.to_lts(raw, A is not None and A > 0)
     return dict(raw=raw, lts=lts, cut=cut, returned="RETURN" in tags, wire=box.get("shown") or {})
